@@ -6,6 +6,11 @@
 //           the list of (logical time, value), per reader a cursor.  Every collection is compared:
 //           delta points == everything since that reader's cursor, cumulative points == everything
 //           since start, delta intervals abut, cumulative intervals start at the one SDK start.
+//           Every ~8th history is a directed "starved reader" history (>= 2 readers; one reader collects
+//           34..60 times in a row with Adds in between while the others do not collect; then they do).
+//           Three histories in ten hold a pair of DIFFERENT instruments with the same name in one meter
+//           (same type and value type; different unit, or different description): two streams, told
+//           apart by MetricData::instrument_descriptor (name_, unit_, description_).
 // mode=conc (tsan + perturbation shim): recorder threads race collector threads (one per reader);
 //           per reader, the sum of all its delta points / its last cumulative point after a final
 //           quiescent collect == the sum recorded; while in flight every running total lies between
@@ -15,6 +20,8 @@
 // history (never from the outcome):
 //   single-reader-fastpath | single-reader-cumulative | multi-reader-delta | multi-reader-cumulative
 //   second-handle | second-view-stream | second-handle+second-view-stream
+//   same-name-different-unit | same-name-different-description   (both instruments of the pair created)
+//   each followed by ":starved-reader" for a reader that a starved-reader history keeps from collecting
 #include <thread>
 
 #include "opentelemetry/context/context.h"
@@ -64,12 +71,15 @@ struct InstCfg
   bool dbl;
   ValueClass vc;
   std::string name, unit, desc;
+  int twin      = -1;  // the other instrument of a same-name pair in the same meter
+  int twin_kind = 0;   // 1: the pair differs in the unit, 2: in the description
 };
 struct Stream
 {
   int inst;
   int view;  // -1: default view
   std::string scope, name;
+  std::string unit, desc;  // of the instrument (no view of this harness changes them)
   bool filter;
   std::set<std::string> allowed;
   StreamLog log;
@@ -158,18 +168,33 @@ struct World
   std::vector<Stream> streams;
   std::vector<std::vector<int>> inst_streams;
   std::vector<int> handles_created;
-  std::map<std::pair<std::string, std::string>, int> stream_index;  // (scope, name) -> stream
-  std::map<std::string, int> meter_index;                           // scope id -> meter
+  typedef std::tuple<std::string, std::string, std::string, std::string> StreamKey;
+  std::map<StreamKey, int> stream_index;   // (scope, stream name, unit, description) -> stream
+  std::map<std::string, int> meter_index;  // scope id -> meter
+  std::vector<bool> starved;               // [reader]: kept from collecting during the burst of a starved-reader history
+
+  // the model stream a MetricData belongs to: streams are identified by scope and by the name, unit
+  // and description in the MetricData's instrument descriptor; -1: nothing produces such a stream
+  int find_stream(const GotMetric &g) const
+  {
+    auto it = stream_index.find(StreamKey(g.scope, g.name, g.unit, g.description));
+    return it == stream_index.end() ? -1 : it->second;
+  }
 
   std::unique_ptr<msdk::MeterProvider> provider;
   std::vector<std::shared_ptr<PullReader>> readers;
   std::vector<nostd::shared_ptr<mapi::Meter>> meter_objs;
   int64_t ctor_before = 0, ctor_after = 0;
 
-  void generate(Rng &r, bool conc)
+  // rx (sequential mode only): second stream for the directed classes.  multi_reader: at least two
+  // readers; twin_kind 1|2: add a same-name instrument that differs in the unit | the description.
+  void generate(Rng &r, bool conc, Rng *rx = nullptr, bool multi_reader = false, int twin_kind = 0)
   {
     // readers
     size_t nreaders = r.chance(35, 100) ? 1 : static_cast<size_t>(r.range(2, conc ? 3 : 4));
+    if (multi_reader && nreaders == 1)
+      nreaders = static_cast<size_t>(rx->range(2, 4));
+    starved.assign(nreaders, false);
     for (size_t i = 0; i < nreaders; ++i)
     {
       ReaderCfg c;
@@ -249,6 +274,32 @@ struct World
         v.new_name = "v" + std::to_string(j) + "_" + insts[t].name;
       views.push_back(v);
     }
+    // a DIFFERENT instrument with the same name in the same meter: same type and value type, other
+    // unit or other description.  Every view that selects the one by name selects the other too.
+    if (twin_kind)
+    {
+      int t      = static_cast<int>(rx->below(ninst));
+      InstCfg tw = insts[t];
+      if (twin_kind == 1)
+      {
+        static const char *units[] = {"", "By", "1", "{req}", "ms"};
+        do
+          tw.unit = units[rx->below(5)];
+        while (tw.unit == insts[t].unit);
+      }
+      else
+      {
+        static const char *descs[] = {"", "number of things", "number of other things"};
+        do
+          tw.desc = descs[rx->below(3)];
+        while (tw.desc == insts[t].desc);
+      }
+      tw.twin            = t;
+      tw.twin_kind       = twin_kind;
+      insts[t].twin      = static_cast<int>(insts.size());
+      insts[t].twin_kind = twin_kind;
+      insts.push_back(tw);
+    }
     // attribute pool (<= 6 distinct maps)
     size_t npool = static_cast<size_t>(r.range(1, conc ? 3 : 6));
     std::set<std::string> seen;
@@ -297,11 +348,13 @@ struct World
         s.view   = j;
         s.scope  = meters[ic.meter].id();
         s.name   = (j < 0 || views[j].new_name.empty()) ? ic.name : views[j].new_name;
+        s.unit   = ic.unit;
+        s.desc   = ic.desc;
         s.filter = j >= 0 && views[j].filter;
         if (s.filter)
           s.allowed = views[j].allowed;
         inst_streams[i].push_back(static_cast<int>(streams.size()));
-        if (!stream_index.emplace(std::make_pair(s.scope, s.name), static_cast<int>(streams.size())).second)
+        if (!stream_index.emplace(StreamKey(s.scope, s.name, s.unit, s.desc), static_cast<int>(streams.size())).second)
         {
           fprintf(stderr, "generator bug: ambiguous stream name %s\n", s.name.c_str());
           abort();
@@ -386,9 +439,16 @@ struct World
   std::string cfg_class(size_t reader, int inst, bool for_abutting) const
   {
     (void)for_abutting;  // one class for value and time-stamp assertions: features first, then readers
+    return base_class(reader, inst) + (starved[reader] ? ":starved-reader" : "");
+  }
+  std::string base_class(size_t reader, int inst) const
+  {
     bool delta = is_delta(reader, inst);
     bool fast  = rcfg.size() == 1 && delta;
     bool h2 = handles_created[inst] >= 2, v2 = inst_streams[inst].size() >= 2;
+    // the rarest feature first: a same-name pair of which both instruments exist
+    if (insts[inst].twin >= 0 && handles_created[inst] > 0 && handles_created[insts[inst].twin] > 0)
+      return insts[inst].twin_kind == 1 ? "same-name-different-unit" : "same-name-different-description";
     if (h2 && v2)
       return "second-handle+second-view-stream";
     if (h2)
@@ -403,8 +463,8 @@ struct World
   std::string describe() const
   {
     std::string s = "readers[";
-    for (auto &rc : rcfg)
-      s += std::string(rc.delta[0] ? "D" : "C") + (rc.delta[1] ? "D" : "C") + " ";
+    for (size_t i = 0; i < rcfg.size(); ++i)
+      s += std::string(rcfg[i].delta[0] ? "D" : "C") + (rcfg[i].delta[1] ? "D" : "C") + (starved[i] ? "*starved " : " ");
     s += "] meters=" + std::to_string(meters.size()) + " views[";
     for (auto &v : views)
       s += v.inst_name + "@" + (v.meter < 0 ? std::string("*") : std::to_string(v.meter)) + "->" +
@@ -412,7 +472,8 @@ struct World
     s += "] insts[";
     for (size_t i = 0; i < insts.size(); ++i)
       s += std::to_string(i) + ":" + insts[i].name + "@" + std::to_string(insts[i].meter) + (insts[i].kind == kCounter ? ":ctr:" : ":updown:") +
-           class_name(insts[i].vc) + ":streams=" + std::to_string(inst_streams[i].size()) + " ";
+           class_name(insts[i].vc) + ":streams=" + std::to_string(inst_streams[i].size()) +
+           (insts[i].twin >= 0 ? ":unit='" + insts[i].unit + "':desc='" + insts[i].desc + "':same-name-as=" + std::to_string(insts[i].twin) : "") + " ";
     return s + "] pool=" + std::to_string(pool.size());
   }
 };
@@ -527,19 +588,31 @@ struct SeqCase
 {
   vf::Report &R = vf::report();
   Rng r;
+  Rng rx;  // second stream: the directed history classes
   World w;
   std::vector<Handle> handles;
   std::vector<ReaderState> rs;
+  bool starved_hist = false;  // one reader collects 34..60 times in a row while the others do not
+  int twin_kind     = 0;      // 1|2: the configuration holds a same-name pair differing in unit|description
+  std::vector<int> create_order;  // instruments are created in this order (a same-name pair first)
+  size_t created = 0;
+  bool want_second = false;
+  bool in_starved_collect = false, starved_judged = false;
+  bool twin_pair_recorded = false, twin_pair_collected = false;
   uint64_t lt = 0;
   bool sdk_start_known = false;
   int64_t sdk_start    = 0;
   std::string trace;
   uint64_t chash = 0;
   size_t adds = 0, collects_after_add = 0, witnesses = 0;
-  std::vector<bool> inst_added_via_second, inst_collected_after_second, inst_added;
+  std::vector<bool> inst_added_via_second, inst_collected_after_second, inst_added, inst_recorded;
   bool fastpath_pair_checked = false, multiview_checked = false, second_handle_checked = false;
 
-  explicit SeqCase(uint64_t seed) : r(seed) {}
+  explicit SeqCase(uint64_t seed) : r(seed), rx(vf::mix(seed, 0x06d17ec7)), starved_hist(vf::mix(seed, 0x57a17ed) % 8 == 0)
+  {
+    uint64_t t = vf::mix(seed, 0x7317) % 10;
+    twin_kind  = t < 2 ? 1 : (t == 2 ? 2 : 0);
+  }
 
   void note(const std::string &s)
   {
@@ -618,6 +691,9 @@ struct SeqCase
       Stream &s = w.streams[si];
       s.log.record(lt, filtered(attrs, s.filter, s.allowed), v);
     }
+    inst_recorded[h.inst] = true;
+    if (ic.twin >= 0 && inst_recorded[ic.twin])
+      twin_pair_recorded = true;
   }
 
   void op_collect(size_t ri)
@@ -641,14 +717,22 @@ struct SeqCase
       auto mi = w.meter_index.find(g.scope);
       if (mi != w.meter_index.end() && !cr.exact.count(mi->second))
         cr.exact[mi->second] = g.end_ns;
-      auto si = w.stream_index.find(std::make_pair(g.scope, g.name));
-      if (si == w.stream_index.end() || w.handles_created[w.streams[si->second].inst] == 0)
+      int si = w.find_stream(g);
+      if (si < 0 || w.handles_created[w.streams[si].inst] == 0)
       {
-        R.violation("unexpected-stream", "sequential", witness("reader " + std::to_string(ri) + " was given stream " + g.scope + "/" + g.name + " which no created instrument/view produces"));
+        // same name as a model stream but another unit/description: its own class
+        bool name_known = false;
+        for (auto &ms : w.streams)
+          name_known |= ms.scope == g.scope && ms.name == g.name && w.handles_created[ms.inst] > 0;
+        R.violation("unexpected-stream", name_known ? "sequential:known-name-other-unit-or-description" : "sequential",
+                    witness("reader " + std::to_string(ri) + " was given stream " + g.scope + "/" + g.name + " unit '" + g.unit + "' description '" + g.description +
+                            "' which no created instrument/view produces"));
         continue;
       }
-      by_stream[si->second].push_back(&g);
+      by_stream[si].push_back(&g);
     }
+    if (twin_pair_recorded)
+      twin_pair_collected = true;
     for (size_t si = 0; si < w.streams.size(); ++si)
     {
       if (w.handles_created[w.streams[si].inst] == 0)
@@ -669,7 +753,8 @@ struct SeqCase
     ValueClass vc   = ic.vc;
     bool delta      = w.is_delta(ri, S.inst);
     std::string cls_v = w.cfg_class(ri, S.inst, false), cls_t = w.cfg_class(ri, S.inst, true);
-    std::string where = "reader " + std::to_string(ri) + (delta ? "(delta)" : "(cumulative)") + " stream " + S.scope + "/" + S.name + " ";
+    std::string where = "reader " + std::to_string(ri) + (delta ? "(delta)" : "(cumulative)") + " stream " + S.scope + "/" + S.name +
+                        (ic.twin >= 0 ? " [unit '" + S.unit + "' description '" + S.desc + "']" : "") + " ";
 
     std::map<std::string, std::vector<Got>> gp;
     bool wrong_kind = false;
@@ -726,6 +811,12 @@ struct SeqCase
         okv                = matches(vc, want_adj, got);
       }
       R.count(delta ? "points_checked_delta" : "points_checked_cumulative");
+      if (in_starved_collect && se.second.since(vc, st.cursor).n > 0)
+      {
+        // a starved reader's first collection after the burst, for a set recorded during the burst
+        R.count(delta ? "starved_reader_delta_points_checked" : "starved_reader_cumulative_points_checked");
+        starved_judged = true;
+      }
       if (got.present && want.n >= 2)
         R.count("points_summing_ge2_measurements");
       if (!okv)
@@ -828,52 +919,118 @@ struct SeqCase
     }
   }
 
+  // one step of the random walk over {create, create the same instrument again, destroy a handle,
+  // Add, Collect}
+  void random_step()
+  {
+    unsigned c = static_cast<unsigned>(r.below(100));
+    std::vector<size_t> alive;
+    for (size_t k = 0; k < handles.size(); ++k)
+      if (handles[k].alive)
+        alive.push_back(k);
+    // the second instrument of a same-name pair follows the first one soon
+    unsigned create_below = (twin_kind && created == 1) ? 30u : 5u;
+    if (created == 0 || (c < create_below && created < w.insts.size()))
+    {
+      op_create(create_order[created++]);
+    }
+    else if (c < (want_second ? 12u : 5u) && handles.size() < 12)
+    {
+      // the same instrument again: same name, description, unit, kind, type
+      if (!want_second && !r.chance(1, 10))
+        return;
+      op_create(create_order[r.below(created)]);
+    }
+    else if (c < 14 && alive.size() > 1)
+    {
+      size_t k = alive[r.below(alive.size())];
+      handles[k].destroy();
+      ++lt;
+      note("destroy(h" + std::to_string(k) + ")");
+      R.count("op_destroy_handle");
+    }
+    else if (c < 75 && !alive.empty())
+    {
+      op_add(alive[r.below(alive.size())]);
+    }
+    else
+    {
+      op_collect(static_cast<size_t>(r.below(rs.size())));
+    }
+  }
+
+  // directed history: a random prefix, then one reader collects 34..60 times in a row with 0..3 Adds
+  // before each collection while the starved readers do not collect, then every starved reader
+  // collects, then a random suffix.  Returns the number of steps.
+  size_t run_starved()
+  {
+    size_t steps = 0;
+    for (size_t k = static_cast<size_t>(rx.range(3, 25)); k > 0; --k, ++steps)
+      random_step();
+    size_t fast = 0;
+    for (size_t i = 0; i < rs.size(); ++i)
+      if (!w.starved[i])
+        fast = i;
+    size_t burst = static_cast<size_t>(rx.range(34, 60));
+    for (size_t k = 0; k < burst; ++k, ++steps)
+    {
+      std::vector<size_t> alive;
+      for (size_t h = 0; h < handles.size(); ++h)
+        if (handles[h].alive)
+          alive.push_back(h);
+      for (size_t n = rx.chance(1, 10) ? 0 : static_cast<size_t>(rx.range(1, 3)); n > 0 && !alive.empty(); --n, ++steps)
+        op_add(alive[r.below(alive.size())]);
+      op_collect(fast);
+    }
+    R.maxi("max_collections_between_two_of_a_starved_reader", burst);
+    in_starved_collect = true;
+    for (size_t i = 0; i < rs.size(); ++i)
+      if (w.starved[i])
+      {
+        op_collect(i);
+        ++steps;
+      }
+    in_starved_collect = false;
+    for (size_t k = static_cast<size_t>(rx.range(0, 20)); k > 0; --k, ++steps)
+      random_step();
+    return steps;
+  }
+
   void run()
   {
-    w.generate(r, false);
+    w.generate(r, false, &rx, starved_hist, twin_kind);
+    if (starved_hist)
+    {
+      size_t fast = static_cast<size_t>(rx.below(w.rcfg.size()));
+      for (size_t i = 0; i < w.rcfg.size(); ++i)
+        w.starved[i] = i != fast;
+    }
     w.build();
     rs.resize(w.rcfg.size());
     inst_added_via_second.assign(w.insts.size(), false);
     inst_added.assign(w.insts.size(), false);
-    size_t nsteps = r.chance(1, 4) ? static_cast<size_t>(r.range(3, 30)) : static_cast<size_t>(r.range(30, 200));
-    bool want_second = r.chance(45, 100);
-    size_t created   = 0;
-    handles.reserve(64);
-    for (size_t step = 0; step < nsteps; ++step)
+    inst_recorded.assign(w.insts.size(), false);
+    for (size_t i = 0; i < w.insts.size(); ++i)
+      create_order.push_back(static_cast<int>(i));
+    if (twin_kind)
     {
-      unsigned c = static_cast<unsigned>(r.below(100));
-      std::vector<size_t> alive;
-      for (size_t k = 0; k < handles.size(); ++k)
-        if (handles[k].alive)
-          alive.push_back(k);
-      if (created == 0 || (c < 5 && created < w.insts.size()))
-      {
-        op_create(static_cast<int>(created++));
-      }
-      else if (c < (want_second ? 12u : 5u) && handles.size() < 12)
-      {
-        // the same instrument again: same name, description, unit, kind, type
-        if (!want_second && !r.chance(1, 10))
-          continue;
-        op_create(static_cast<int>(r.below(created)));
-      }
-      else if (c < 14 && alive.size() > 1)
-      {
-        size_t k = alive[r.below(alive.size())];
-        handles[k].destroy();
-        ++lt;
-        note("destroy(h" + std::to_string(k) + ")");
-        R.count("op_destroy_handle");
-      }
-      else if (c < 75 && !alive.empty())
-      {
-        op_add(alive[r.below(alive.size())]);
-      }
-      else
-      {
-        op_collect(static_cast<size_t>(r.below(rs.size())));
-      }
+      // the pair is created first, in either order
+      int b = static_cast<int>(w.insts.size()) - 1, a = w.insts[b].twin;
+      create_order.clear();
+      create_order.push_back(rx.coin() ? a : b);
+      create_order.push_back(create_order[0] == a ? b : a);
+      for (int i = 0; i < static_cast<int>(w.insts.size()); ++i)
+        if (i != a && i != b)
+          create_order.push_back(i);
     }
+    size_t nsteps = r.chance(1, 4) ? static_cast<size_t>(r.range(3, 30)) : static_cast<size_t>(r.range(30, 200));
+    want_second   = r.chance(45, 100);
+    handles.reserve(64);
+    if (starved_hist)
+      nsteps = run_starved();
+    else
+      for (size_t step = 0; step < nsteps; ++step)
+        random_step();
     for (size_t ri = 0; ri < rs.size(); ++ri)
       op_collect(ri);
 
@@ -882,7 +1039,7 @@ struct SeqCase
     bool any_delta = false, any_cum = false;
     for (size_t ri = 0; ri < w.rcfg.size(); ++ri)
       for (size_t i = 0; i < created; ++i)
-        (w.is_delta(ri, static_cast<int>(i)) ? any_delta : any_cum) = true;
+        (w.is_delta(ri, create_order[i]) ? any_delta : any_cum) = true;
     if (w.rcfg.size() == 1 && any_delta && fastpath_pair_checked)
       R.count("hist_single_delta_reader_fastpath");
     if (w.rcfg.size() == 1 && !any_delta)
@@ -904,6 +1061,10 @@ struct SeqCase
       R.count("hist_with_attribute_filter");
     if (w.meters.size() > 1)
       R.count("hist_multi_meter");
+    if (starved_hist && starved_judged)
+      R.count("hist_starved_reader");
+    if (twin_pair_collected)
+      R.count(twin_kind == 1 ? "hist_same_name_different_unit" : "hist_same_name_different_description");
     R.maxi("max_steps", nsteps);
     R.maxi("max_handles", handles.size());
     if (adds && collects_after_add)
@@ -1004,13 +1165,12 @@ struct ConcCase
     std::set<std::pair<int, std::string>> seen_cum;
     for (auto &g : got)
     {
-      auto sit = w.stream_index.find(std::make_pair(g.scope, g.name));
-      if (sit == w.stream_index.end())
+      int si = w.find_stream(g);
+      if (si < 0)
       {
         R.violation("unexpected-stream", "concurrent", "reader " + std::to_string(ri) + " was given stream " + g.scope + "/" + g.name);
         continue;
       }
-      int si      = sit->second;
       bool delta  = w.is_delta(ri, w.streams[si].inst);
       if (!delta)
         c.cumulative_starts.insert(g.start_ns);
